@@ -947,7 +947,8 @@ def _domain_case(rng):
     while True:
         # "any fs": round and non-round sampling periods, Hz to tens of kHz
         fs = float(rng.choice([20.0, 50.0, 100.0, 1000.0, 1200.0, 2048.0, 3000.0, 4096.0, 44100.0, rng.uniform(5, 2000), 10.0 ** rng.uniform(-1, 5)]))
-        nxseg = int(rng.choice([1024, 2048, 4096, 8192]))
+        # (odd segment lengths are legal: the one-sided grid then ends below fs/2)
+        nxseg = int(rng.choice([1024, 2048, 4096, 8192, 1025, 2047, 4095]))
         xi = rng.uniform(0.02, 0.05)
         lo = max(0.04, 2 / (xi * nxseg), 60 / nxseg)  # >= 4 lines per bandwidth, >= 30 periods in the half record
         if lo >= 0.25:
